@@ -77,7 +77,7 @@ CLAIMED["C07"] = dict(
 
 CLAIMED["C08"] = dict(
     engine="P", technique="property-based differential testing: generated structs and values, generated JS executed in Node against a stub wasm memory vs a rustc-computed repr(C) layout oracle and a reference model of the wasm argument ABI",
-    text="Generated struct definitions (any field order / padding pattern, nesting, options, pointers, slices) and field values; the generated JS's written bytes, read-back values, buffer size/alignment, flattened argument lists and (spec ABI) the {payload, is_ok} buffer of an optional struct parameter are compared with rustc's offset_of!/size_of! for the 32-bit-pointer rendering of the same structs (real diplomat_runtime::DiplomatOption) and with the wasm ABI model, for js.abi = legacy and spec. Exploration.",
+    text="Generated struct definitions (any field order / padding pattern, nesting, options, pointers, slices) and field values; the generated JS's written bytes, read-back values, buffer size/alignment, flattened argument lists and (spec ABI) the {payload, is_ok} buffer of an optional struct parameter, and the receive buffers of Result<Sa,Sb> / Result<(),Sb> / Option<Sa> returns (allocation, alignment, position of is_ok, arm taken) are compared with rustc's offset_of!/size_of! for the 32-bit-pointer rendering of the same structs (real diplomat_runtime::DiplomatOption) and with the wasm ABI model, for js.abi = legacy and spec. Exploration.",
     note="Trusted: rustc layout of the pointer-narrowed structs on x86-64 as a stand-in for wasm32; the legacy flattening model transcribed from docs/wasm_abi_quirks.md (no legacy-ABI compiler available); node executing the generated modules.",
     ref="DESIGN.md §2 C08")
 
